@@ -25,7 +25,7 @@ Definition args_ok (idx : iindex) (o : op) : Prop :=
   | OSetIf k v => set_if_ok idx k v
   | OFiltered mask => filtered_ok idx mask
   | OCollapsed prec _ => collapse_ok idx prec
-  | OSliced orders => orders_ok orders (hshape idx)
+  | OSliced orders => orders = [] \/ orders_ok orders (hshape idx)     (* sliced() without arguments returns self *)
   | OColumnStack pre post _ => cs_args_ok (pre ++ idx :: post)
   | OGetForce _ | OItemsForce | OToDictForce | OCommonRowids _ | OSlices1d => True
   end.
